@@ -29,7 +29,8 @@ ASSUMPTIONS = ['file-partition model in pvmon/props/c13.py', "stdlib html.parser
                'the i-th file-producing unit of the AST corresponds to the i-th name issued by Renderable.filename (document order)']
 DECIDING_HOOKS = ['Renderable.filename', 'Filenames.__next__']
 DECIDING_COUNTERS = {'body_markers_located': 500}
-TEMPLATES = ['index [$id, sect$num(4)]', 'index [$id, sect$num(4)]', 'index [$title(3), s$num]', 'index [$title, sect$num(4)]', '[$id-$num(2), f$num(3)]', 'a b c [x$num]', '$jobname-$num(3)', 'all']
+TEMPLATES = ['index [$id, sect$num(4)]', 'index [$id, sect$num(4)]', 'index [$title(3), s$num]', 'index [$title, sect$num(4)]', '[$id-$num(2), f$num(3)]', 'a b c [x$num]', '$jobname-$num(3)', 'all',
+             'index [ $id , sect$num(4) ]']      # (layout blanks inside the brackets belong to no name)
 BADCHARS = [None, None, (': #$%^&*!~`"\'=?/{}[]()|<>;\\,.', '-'), (': ', '_'), (':;,. -', 'Z')]
 SETUPS = [('HTML5', 'default'), ('HTML5', 'default'), ('HTML5', 'minimal'), ('XHTML', 'default')]
 # for this check only: a renderer without page templates and layouts (the manual's first example), which takes the other path through
@@ -105,7 +106,7 @@ def cases(seed, tier, shard, nshards):
         same = r.randint(2, 3) if r.random() < 0.3 else 0
         pre = ' '.join('Fn%dz\\footnote{Zf7y same note}' % k for k in range(same - 1)) + ('\n\n' if same else '')
         suf = ('\n\nFnlz\\footnote{Zf7y same note}\n' if same else '')
-        yield {'kind': 'split', 'src': docs.latex(d, body_prefix=pre, body_suffix=suf), 'same_notes': same, 'truth': truth(d), 'level': r.choice([-10, -2, -1, 0, 1, 1, 2, 2, 3, 4, 6]), 'template': template,
+        yield {'kind': 'split', 'src': docs.latex(d, body_prefix=pre, body_suffix=suf), 'same_notes': same, 'truth': truth(d), 'level': r.choice([-10, -2, -1, 0, 1, 1, 2, 2, 3, 4, 4, 5, 6]), 'template': template,
                'bad': r.choice(BADCHARS), 'renderer': setup_[0], 'theme': setup_[1]}
     for i in common.sharded(b['n_det'], shard, nshards):
         r = common.rng_for(seed, PROP, i, 'det')
